@@ -73,6 +73,27 @@ def run(res, tier, seed, widen=1):
         res.count("fam_" + fam)
     for i in range(0, len(cases), 5000):
         _run_cases(res, cases[i:i + 5000], "generated")
+    # over-long frames: more than 2047 octets without a flag, then a flag and a short good frame - in ONE chunk, cut somewhere
+    # between octet 2048 and that flag, cut before octet 2048, and in fixed blocks (where the discard happens must not depend
+    # on where the chunk ends)
+    cases = []
+    for i in range((40 if tier == "quick" else 600) * widen):
+        cfg = H.CFGS[i % 4]
+        ln = rng.choice([2046, 2047, 2048, 2049, 2100, 2600])
+        body = bytearray(rng.choice([0xA0, 0x07, 0x41, 0x00, 0xFF, 0x5E]) if rng.random() < 0.5 else rng.choice([x for x in range(256) if x not in (0x7E, 0x7D)])
+                         for _ in range(ln))
+        if rng.random() < 0.7:
+            body[0:2] = bytes([0xA7, 0xFF]) if rng.random() < 0.5 else bytes([0xA0 | rng.randrange(8), rng.randrange(256)])
+        if rng.random() < 0.3:
+            body[-1] = 0x7D
+        good = H.make_frame(rng, info=bytes(rng.randrange(0x20, 0x7A) for _ in range(rng.choice([0, 3, 9]))), dst_len=1, src_len=1, ctl=0x13)
+        tail = b"\x7e" + good + b"\x7e" + (good + b"\x7e" if rng.random() < 0.5 else b"")
+        data = b"\x7e" + bytes(body) + tail
+        inside = rng.randint(min(2050, ln), ln) if ln >= 2049 else ln
+        chunkings = [[data], lib.split_at(data, [inside]), lib.split_at(data, [rng.randint(1, 2040)]),
+                     [data[j:j + 512] for j in range(0, len(data), 512)], lib.split_at(data, [len(data) - len(tail) + 1])]
+        cases.append((cfg, data, chunkings))
+    _run_cases(res, cases, "overlong_then_flag")
     # exhaustive small domain
     maxlen = 4 if tier == "quick" else 6
     alpha = [0x7E, 0x7D, 0xA0, 0x07, 0x01]
